@@ -44,10 +44,10 @@ mod verif_kani_sort {
         let before: [u8; N] = kani::any();
         let probe: [u8; 2] = kani::any();
         let mut v = before;
+        // NB: intro_sort / sort are never referenced: they reach rayon::join, which Kani cannot compile
         match which {
             0 => insertion_sort(&mut v, row_len, rowcmp),
-            1 => heap_sort(&mut v, row_len, rowcmp),
-            _ => intro_sort(&mut v, row_len, rowcmp, 2),
+            _ => heap_sort(&mut v, row_len, rowcmp),
         }
         assert!(sorted(&v, row_len));
         // permutation: every possible row occurs as often as before
